@@ -49,7 +49,7 @@ fn groups(x: &ReplExec) -> Vec<BTreeSet<u8>> {
 }
 
 /// Parses the body of a mutate message into `(entity bits, record length)` pairs.
-fn entity_records(track: bool, bytes: &[u8]) -> Option<(usize, Vec<(u64, usize)>)> {
+pub fn entity_records(track: bool, bytes: &[u8]) -> Option<(usize, Vec<(u64, usize)>)> {
     let mut pos = 0;
     read_varint(bytes, &mut pos)?;
     read_varint(bytes, &mut pos)?;
@@ -505,6 +505,40 @@ pub fn cells(tier: Tier) -> Vec<CellPlan> {
         let mut c = cells::three_comps("C10", 1);
         c.oracles = Oracles { c10: true, c02: true, c01: true, ..Default::default() };
         v.push(plan(c, 1, 1.0));
+    }
+    // The relationship graph across a server restart: relations that existed before the stop
+    // still bind their entities together in the next session.
+    {
+        use crate::events::*;
+        let mut cfg = Cfg::default();
+        cfg.events = true;
+        cfg.with_child = true;
+        cfg.sync_rel = true;
+        // (one entity's mutation fits into a message, two do not)
+        cfg.clients = vec![14];
+        let c = EvCell {
+            name: "c10-graph-restart".into(),
+            property: "C10",
+            cfg,
+            connect_at_start: vec![0],
+            init: vec![Op::Spawn(0, cells::M_A), Op::Spawn(1, cells::M_A), Op::Spawn(2, cells::M_A), Op::SetParent(1, 0)],
+            alphabet: vec![
+                EvOp::Nop,
+                EvOp::StopServer,
+                EvOp::StartServerWith(0),
+                EvOp::World(Op::Mut(0, TA)),
+                EvOp::World(Op::Mut(1, TA)),
+                EvOp::World(Op::Mut(2, TA)),
+                EvOp::World(Op::SetParent(2, 0)),
+                EvOp::EmitS(SK::E1, Mode::Broadcast, None),
+            ],
+            rounds: if q { 4 } else { 5 },
+            tick_choice: true,
+            env: EvEnv { hold_updates: 0, hold_events: false, reorder: false, drop_unreliable: false, hold_client_events: false, hold_mutations: false, hold_acks: false, update_latency: 0, update_batch: 0 },
+            oracles: EvOracles { c10_groups: true, convergence: true, ..Default::default() },
+            closure_rounds: 5,
+        };
+        v.push(plan(c, 0, 2.0));
     }
     // A related group with one member hidden from the client (blacklist): the visible members
     // still travel together, the hidden one not at all.
